@@ -40,6 +40,29 @@ func (g *Gen) iff(oneIn int) []string {
 	return out
 }
 
+// impPrefix chooses the prefix of a new import in file f. Prefixes are local to a file:
+// one time in three the prefix comes from a small pool (so that two files, or a module
+// and its submodule, bind one prefix string to different modules), and a submodule whose
+// belongs-to prefix differs from its module's own prefix may use exactly that prefix
+// for something else.
+func (g *Gen) impPrefix(f *Mod) string {
+	if g.pick(3) == 0 {
+		pool := []string{"q0", "q1", "q2"}
+		if f.Sub && f.Owner != nil && f.Owner.Prefix != f.Prefix {
+			pool = append(pool, f.Owner.Prefix, f.Owner.Prefix)
+		}
+		q := pool[g.pick(len(pool))]
+		taken := q == f.Prefix
+		for _, im := range f.Imports {
+			taken = taken || im.Prefix == q
+		}
+		if !taken {
+			return q
+		}
+	}
+	return g.name("i")
+}
+
 // grName names a new grouping defined in scope s. One time in four it reuses the name of
 // a grouping defined elsewhere, where that is valid YANG: not in the same scope, not in an
 // enclosing scope, and not at the top level of the same module or one of its submodules
@@ -306,8 +329,12 @@ func (g *Gen) addTypedefs(s *Scope) {
 			ts := []string{"string", "int8", "boolean"}
 			td.Type = &TypeRef{Name: ts[g.pick(len(ts))], Scope: s}
 		}
-		if g.pick(3) == 0 {
+		switch g.pick(6) {
+		case 0, 1:
 			td.Units = g.name("u")
+			td.UnitsSet = true
+		case 2:
+			td.UnitsSet = true // units ""; - stated, and empty: it still wins over an inherited one
 		}
 		if k := (&Resolver{}).ResolveType(td.Type, 0); k.Kind == "string" && g.pick(3) == 0 {
 			td.HasDef = true
@@ -543,7 +570,7 @@ func (g *Gen) Build() {
 		// imports of earlier modules
 		for _, e := range mods {
 			if g.pick(2) == 0 {
-				m.Imports = append(m.Imports, &Import{Mod: e, Prefix: g.name("i")})
+				m.Imports = append(m.Imports, &Import{Mod: e, Prefix: g.impPrefix(m)})
 			}
 		}
 		// submodules
@@ -560,7 +587,7 @@ func (g *Gen) Build() {
 			s.Body = &Scope{File: s}
 			for _, e := range mods {
 				if g.pick(3) == 0 {
-					s.Imports = append(s.Imports, &Import{Mod: e, Prefix: g.name("i")})
+					s.Imports = append(s.Imports, &Import{Mod: e, Prefix: g.impPrefix(s)})
 				}
 			}
 			// submodule may include earlier submodules
